@@ -258,7 +258,7 @@ def classify(desc, exp, res, has_bs):
         if tag["form"] != "bs":
           seen.add("tag:" + gen_srt.form_label(tag))
         if tag["k"] == "font":
-          seen.add("font:" + ("named" if "name" in tag["color"] else "hex"))
+          seen.add("font:" + ("named" if "name" in tag["color"] else "unknown-colour" if "raw" in tag["color"] else "hex"))
           seen.add("font:quote-" + {'"': "double", "'": "single", "": "none"}[tag["quote"]])
           if tag["pre"] or tag["post"]:
             seen.add("font:extra-attribute")
